@@ -11,7 +11,7 @@
 (***************************************************************************)
 EXTENDS Determinism, Json
 CONSTANTS OPS, MAXLEN, EMIT
-Files == {"fw", "child", "env", "multi"}
+Files == {"fw", "child", "env", "multi", "multi2"}
 VARIABLES ver, cwd, hist
 vars == <<ver, cwd, hist>>
 Init == ver = [f \in Files |-> 1] /\ cwd = 1 /\ hist = <<>>
